@@ -448,14 +448,25 @@ func c20Case(c *Ctx) *Result {
 			pf := filepath.Join(dir, "spatch.json")
 			os.WriteFile(pf, pj, 0o644)
 			before, _ := appctl.LoadServerConfig()
-			if err := appctl.ApplyJSONServerConfig(pf); err != nil {
-				fail("server-patch-rejected", err.Error())
+			// the library function, or the documented command talking to the daemon
+			apply, via := appctl.ApplyJSONServerConfig, "library"
+			if it%2 == 1 {
+				apply, via = mitaApplyConfig, "mita-apply-config"
+			}
+			params["server_patch_via"] = via
+			res.Obs["patches_via_"+via]++
+			if err := apply(pf); err != nil {
+				if strings.HasPrefix(err.Error(), "harness:") {
+					res.Verdict, res.Detail = Inconclusive, err.Error()
+					return res
+				}
+				fail("server-patch-rejected|"+via, err.Error())
 			} else {
 				after, _ := appctl.LoadServerConfig()
 				res.Obs["patches"]++
 				chk := func(name string, set bool, a, b proto.Message, patched proto.Message) {
 					if !set && !proto.Equal(a, b) {
-						fail("patch-changed-unset-field|"+name, fmt.Sprintf("a server patch that sets only %s changed %s", []string{"egress", "dns", "users", "mtu", "trafficPattern"}[which], name))
+						fail("patch-changed-unset-field|"+name, fmt.Sprintf("a server patch that sets only %s changed %s (applied via %s)", []string{"egress", "dns", "users", "mtu", "trafficPattern"}[which], name, via))
 					}
 					if set && !proto.Equal(b, patched) {
 						fail("patch-field-not-applied|"+name, "")
@@ -471,10 +482,10 @@ func c20Case(c *Ctx) *Result {
 					fail("patch-field-not-applied|mtu", "")
 				}
 				if after.GetLoggingLevel() != before.GetLoggingLevel() || !proto.Equal(after.GetAdvancedSettings(), before.GetAdvancedSettings()) || len(after.GetPortBindings()) != len(before.GetPortBindings()) {
-					fail("patch-changed-unset-field", "")
+					fail("patch-changed-unset-field", fmt.Sprintf("logging level, advanced settings or port bindings changed (applied via %s): %d port bindings before, %d after", via, len(before.GetPortBindings()), len(after.GetPortBindings())))
 				}
 				if which != 2 && len(after.GetUsers()) != len(before.GetUsers()) {
-					fail("patch-changed-unset-field|users", "")
+					fail("patch-changed-unset-field|users", fmt.Sprintf("%d users before, %d after (applied via %s)", len(before.GetUsers()), len(after.GetUsers()), via))
 				}
 			}
 		}
